@@ -62,10 +62,11 @@ type Call struct {
 
 // Case is one Runtime and the calls made on it.
 type Case struct {
-	Registry   []string `json:"registry"`   // media types with a registered consumer (lower case; may contain */*)
-	DefaultMT  string   `json:"default_mt"` // Runtime.DefaultMediaType
-	RtClient   string   `json:"rt_client"`  // transport: Runtime.Transport only | client: NewWithClient
-	RtCtx      string   `json:"rt_ctx"`     // nil | live | cancelled
+	Registry   []string `json:"registry"`        // media types with a registered consumer (lower case; may contain */*)
+	DefaultMT  string   `json:"default_mt"`      // Runtime.DefaultMediaType
+	Debug      bool     `json:"debug,omitempty"` // Runtime.Debug on (set after construction)
+	RtClient   string   `json:"rt_client"`       // transport: Runtime.Transport only | client: NewWithClient
+	RtCtx      string   `json:"rt_ctx"`          // nil | live | cancelled
 	Calls      []Call   `json:"calls"`
 	Concurrent bool     `json:"concurrent,omitempty"` // the calls are released together from a barrier
 	Warm       bool     `json:"warm,omitempty"`       // concurrent only: call 0 completes before the others start
@@ -286,6 +287,11 @@ func (c *Call) wire(tok string) []byte {
 
 // Check ---------------------------------------------------------------------------------------------
 
+type silentLogger struct{}
+
+func (silentLogger) Printf(string, ...interface{}) {}
+func (silentLogger) Debugf(string, ...interface{}) {}
+
 // soonDeadline is the deadline of a "soon" context: well inside the 30 s default timeout the calls run under, and far
 // longer than a scripted call takes.
 const soonDeadline = 20 * time.Second
@@ -343,6 +349,11 @@ func Check(c Case) *kit.Violation {
 	}
 	rt.Transport = &transport{"runtime-transport", e}
 	rt.Debug = false
+	if c.Debug {
+		// requests and responses are dumped to a (silent) logger: what the reader sees does not depend on it
+		rt.SetLogger(silentLogger{})
+		rt.SetDebug(true)
+	}
 	rt.DefaultMediaType = c.DefaultMT
 	rt.Consumers = map[string]runtime.Consumer{}
 	for _, k := range c.Registry {
